@@ -104,7 +104,47 @@ def wl_iter(tier, seed):
             ("l2", l2_batch(seed + 5, 20, nops=150, base=200, iter_every=2), dict(per_tlc=2, tlc_jobs=8))]
 
 
+def wl_reopen(tier, seed):
+    import random
+    rng = random.Random(seed)
+    cnt, nops, closes = (8, 250, 6) if tier == "quick" else (60, 1500, 25)
+    out = []
+    for i in range(cnt):
+        nb = rng.choice([("BucketsSize", 1), ("BucketsSize", 8), ("BucketsSize", 64), ("Capacity", 64), ("BucketsSize", 4096), ("Capacity", 3)])
+        out.append(gen.gen_reopen(seed * 1000 + 100 + i, idbase=i * IDSTEP, nops=nops, nb=nb, kt=gen.KTS[i % 5], closes=closes, name="reopen_%d" % i))
+    return [("reopen", out, dict(per_tlc=2 if tier == "quick" else 4, tlc_jobs=8, max_slots=300))]
+
+
+def wl_sync(tier, seed):
+    cnt, nops = (8, 100) if tier == "quick" else (80, 300)
+    out = [gen.gen_sync(seed * 1000 + 200 + i, idbase=i * IDSTEP, nops=nops, nmaps=1 + i % 3, kill=(i % 3 == 2), name="sync_%d" % i) for i in range(cnt)]
+    return [("sync", out, dict(per_tlc=2 if tier == "quick" else 5, tlc_jobs=8, max_slots=300))]
+
+
+def wl_fault(tier, seed):
+    import random
+    rng = random.Random(seed)
+    out = []
+    i = 0
+    for shape in ("val", "key", "htx"):
+        ths = gen.fault_thresholds(shape, 0 if tier == "quick" else 24, rng)
+        if tier == "quick":
+            ths = rng.sample(ths, 7)
+        for t in ths:
+            out.append(gen.gen_fault(seed * 1000 + 400 + i, idbase=i * IDSTEP, shape=shape, threshold=t,
+                                     syncop=["flush", "sync_all", "sync_data"][i % 3], name="fault_%s_%d" % (shape, t)))
+            i += 1
+    return [("fault", out, dict(per_tlc=4 if tier == "quick" else 8, tlc_jobs=8, max_slots=300))]
+
+
+def mc_buf(tier):
+    return [dict(module="MCStore_q.tla", cfg="MCStore_q.cfg", workers=8)]
+
+
 PLANS = {
+    "C02": dict(attr=["C02.", "C01.result", "C01.outcome", "C05.content"], mc=mc_buf, workloads=wl_reopen, assumptions=COMMON_ASSUME),
+    "C03": dict(attr=["C03."], mc=mc_buf, workloads=wl_sync, assumptions=COMMON_ASSUME),
+    "C16": dict(attr=["C16.", "C03.outcome", "C01.result"], mc=mc_buf, workloads=wl_fault, assumptions=COMMON_ASSUME),
     "C04": dict(attr=["C04.", "C01.outcome"], mc=mc_scan, workloads=wl_iter, assumptions=COMMON_ASSUME),
     "C08": dict(attr=["C08.", "C01.result", "C01.outcome", "C05.content", "C05.count"], mc=mc_reloc, workloads=wl_reloc, assumptions=COMMON_ASSUME),
     "C01": dict(attr=["C01."], mc=lambda t: mc_store(t), workloads=wl_core, assumptions=COMMON_ASSUME),
